@@ -1,11 +1,70 @@
-/- BDS 1,7 — crates/rs1090/src/decode/bds/bds17.rs   (STUB: not modelled yet) -/
+/- BDS 1,7 common usage GICB capability report — crates/rs1090/src/decode/bds/bds17.rs
+   (also hosts the flag-list reader shared with BDS 1,8 and BDS 1,9, which are the same shape:
+   a row of 1-bit booleans, some with a deku `map` that rejects one of the two values, each
+   serialised only when true). -/
 import Rs1090.Model.Decode.Common
-namespace Rs1090.Model.Bds17
+namespace Rs1090.Model.Gicb
 open Rs1090 Rs1090.Model
 
-/-- STUB -/
-def modelled : Bool := false
+/-- what the deku `map` attribute of a 1-bit capability flag demands -/
+inductive Rule where
+  /-- no `map` -/
+  | any
+  /-- `map = "fail_if_false"` -/
+  | mustTrue
+  /-- `map = "fail_if_true"` -/
+  | mustFalse
+  deriving DecidableEq, Repr, Inhabited
 
-def read : R SerFields := R.fail .other
+/-- `fail_if_false` / `fail_if_true`: `Err(DekuError::Assertion)` on the refused value -/
+def applyRule : Rule → Bool → Outcome Bool
+  | .any, v => .ok v
+  | .mustTrue, v => if v then .ok v else .err .assertion
+  | .mustFalse, v => if v then .err .assertion else .ok v
+
+/-- `#[serde(skip_serializing_if = "is_false")] pub x: bool` -/
+def flagField (k : Key) (v : Bool) : Key × Option Json :=
+  (k, if v then some (jbool true) else none)
+
+/-- the fields in declaration order: one bit each, `map` applied right after the read -/
+def readFlags : List (Key × Rule) → R Fields
+  | [] => pure []
+  | (k, r) :: rest => do
+    let v ← flag
+    let v ← R.lift (applyRule r v)
+    let fs ← readFlags rest
+    pure (flagField k v :: fs)
+
+end Rs1090.Model.Gicb
+
+namespace Rs1090.Model.Bds17
+open Rs1090 Rs1090.Model Rs1090.Model.Gicb
+
+def modelled : Bool := true
+
+/-- the 24 capability bits of `CommonUsageGICBCapabilityReport`; only `bds20` has a `map` -/
+def flags : List (Key × Rule) := [
+  (key! "bds05", .any), (key! "bds06", .any), (key! "bds07", .any), (key! "bds08", .any),
+  (key! "bds09", .any), (key! "bds0a", .any), (key! "bds20", .mustTrue), (key! "bds21", .any),
+  (key! "bds40", .any), (key! "bds41", .any), (key! "bds42", .any), (key! "bds43", .any),
+  (key! "bds44", .any), (key! "bds45", .any), (key! "bds48", .any), (key! "bds50", .any),
+  (key! "bds51", .any), (key! "bds52", .any), (key! "bds53", .any), (key! "bds54", .any),
+  (key! "bds55", .any), (key! "bds56", .any), (key! "bds5f", .any), (key! "bds60", .any) ]
+
+/-- `check_zeros`: `for i in 0..=3` read a `u8` of 3, 8, 8, 8 bits; the first non-zero one is
+    `Err(DekuError::InvalidParam)` -/
+def checkZeros : List Nat → R Bool
+  | [] => pure true
+  | n :: rest => do
+    let v ← bits n
+    if v != 0 then R.fail .invalidParam else checkZeros rest
+
+/-- `CommonUsageGICBCapabilityReport`: 24 flags, 5 reserved bits (`#[serde(skip)]`, *not*
+    checked), then `check_zeros` on the remaining 27 bits (`check_flag`, `#[serde(skip)]`). -/
+def read : R SerFields := do
+  let fs ← readFlags flags
+  let _reserved ← bits 5
+  let _check ← checkZeros [3, 8, 8, 8]
+  pure <| tagged (key! "bds") (key! "17") (.ok fs)
 
 end Rs1090.Model.Bds17
